@@ -112,7 +112,7 @@ func RunVerify(c VerifyCase) (res Result) {
 	}
 	// the verdict does not depend on how the key object came about (generated, decoded, aggregated from public or from private
 	// keys with or without cached public keys, left over after a removal): every origin of the same key value
-	for variant := 0; variant < 6; variant++ {
+	for variant := 0; variant < 7; variant++ {
 		pkv := w.PK(form, variant)
 		got := verdictOf(pkv.Verify(sig, m.Data, w.Hasher(hcls, "m1")))
 		res.Evals++
